@@ -550,13 +550,32 @@ def bounded(body, bb, e, op='Add'):
     return None
 
 
+def anon(e):
+    """expression with call sites erased and parameter / local names replaced by positions, so that keys survive renames"""
+    if not isinstance(e, tuple) or not e:
+        return e
+    if e[0] == 'call':
+        return ('call', e[1], tuple(anon(a) for a in e[2]))
+    if e[0] == 'arg':
+        return ('arg', 0, 'self' if e[2] == 'self' else 'arg%d' % e[1])
+    if e[0] == 'local':
+        return ('local', 0, '_')
+    return tuple(anon(x) for x in e)
+
+
 def site_key(site):
     body = site.body
     if site.kind == 'assert':
-        d = site.detail
+        t = body.bbs[site.bb]['t']
+        if 'a' in t:
+            d = '%s , %s' % (show(anon(body.expr_op(t['a']))), show(anon(body.expr_op(t['b']))))
+        elif 'index' in t:
+            d = 'index %s len %s' % (show(anon(body.expr_op(t['index']))), show(anon(body.expr_op(t['len']))))
+        else:
+            d = ''
     else:
         try:
-            d = ', '.join(show(nosite(a)) for a in site.cs.args())
+            d = ', '.join(show(anon(a)) for a in site.cs.args())
         except Exception:
             d = ''
     d = re.sub(r'\u27ea[^\u27eb]*\u27eb', '<str>', d)
@@ -567,6 +586,7 @@ def site_key(site):
 def audit_bodies(rep, rule, bodies, audited, classes=('assert', 'panic', 'partial', 'alloc', 'unchecked'), list_all=False, known_prefix=None):
     """every site in `bodies` must be structurally discharged or individually audited"""
     used = set()
+    seen_n = {}
     for b in bodies:
         rep.functions.add(b.id)
         sites = collect_sites(b, classes)
@@ -581,8 +601,12 @@ def audit_bodies(rep, rule, bodies, audited, classes=('assert', 'panic', 'partia
                 if r:
                     how = r
             if how is None and key in audited:
-                how = 'audited: ' + audited[key]
-                used.add(key)
+                ent = audited[key]
+                reason, allowed = (ent, 1) if isinstance(ent, str) else (ent['reason'], ent.get('count', 1))
+                seen_n[key] = seen_n.get(key, 0) + 1
+                if seen_n[key] <= allowed:
+                    how = 'audited: ' + reason
+                    used.add(key)
             if how is not None:
                 rep.ok(rule, key, how, s.loc())
                 if list_all:
